@@ -49,9 +49,25 @@ func columns(c *gen.Case) []string {
 		}
 	}
 	if z.TimeKey != "" && z.EncodeTime != nil && !e.Time.IsZero() {
-		r := &colRec{}
-		z.EncodeTime(e.Time, r)
-		add(r)
+		// layout-based stock encoders: the expected text is formatted here, with the documented layout
+		layout := ""
+		switch c.Cfg.Time {
+		case gen.TimeISO8601:
+			layout = "2006-01-02T15:04:05.000Z0700"
+		case gen.TimeRFC3339:
+			layout = time.RFC3339
+		case gen.TimeRFC3339Nano:
+			layout = time.RFC3339Nano
+		case gen.TimeLayout:
+			layout = c.Cfg.Layout
+		}
+		if layout != "" {
+			cols = append(cols, e.Time.Format(layout))
+		} else {
+			r := &colRec{}
+			z.EncodeTime(e.Time, r)
+			add(r)
+		}
 	}
 	if z.LevelKey != "" && z.EncodeLevel != nil {
 		r := &colRec{}
@@ -129,6 +145,18 @@ func prefixes(cols []string, sep string) []string {
 // encodeConsole encodes the case's entry. history > 0 first sends earlier entries through the
 // same encoder (1: one without call-site fields; 2: one without and one with fields): the
 // judged line must not depend on them.
+var otherZone = time.FixedZone("verif+0545", 5*3600+45*60)
+
+// earlier is the entry sent ahead of the judged one: the same instant, as seen in another time zone.
+func earlier(e zapcore.Entry) zapcore.Entry {
+	if _, off := e.Time.Zone(); off == 5*3600+45*60 {
+		e.Time = e.Time.UTC()
+	} else {
+		e.Time = e.Time.In(otherZone)
+	}
+	return e
+}
+
 func encodeConsole(c *gen.Case, viaCore bool, history int) ([]byte, string) {
 	enc := zapcore.NewConsoleEncoder(c.Cfg.Zap())
 	fields := gen.ZapFields(c.Fields)
@@ -139,7 +167,7 @@ func encodeConsole(c *gen.Case, viaCore bool, history int) ([]byte, string) {
 			core = core.With(gen.ZapFields(w))
 		}
 		if history >= 1 {
-			_ = core.Write(c.Ent, nil)
+			_ = core.Write(earlier(c.Ent), nil)
 		}
 		if history >= 2 {
 			_ = core.Write(c.Ent, fields)
@@ -162,7 +190,7 @@ func encodeConsole(c *gen.Case, viaCore bool, history int) ([]byte, string) {
 		enc = clone
 	}
 	if history >= 1 {
-		if b, err := enc.EncodeEntry(c.Ent, nil); err == nil {
+		if b, err := enc.EncodeEntry(earlier(c.Ent), nil); err == nil {
 			b.Free()
 		}
 	}
